@@ -259,6 +259,9 @@ func systematicPkgCases(id *int, profile, scratch string, rng *rand.Rand, tier s
 			c3 := baseCfg("nohostpkg")
 			c3.RpmBuildHost = "another-build-host.example"
 			add(c3, smallTree(), "buildhost-set")
+			c4 := baseCfg("hostlesspkg") // (built in the same process as packages that configure one)
+			c4.RpmBuildHost = ""
+			add(c4, smallTree(), "buildhost-unset")
 		}
 		// names archlinux does not take (a character outside [A-Za-z0-9._+-], a leading hyphen or dot): archlinux refuses to
 		// build, the other formats use the name as it is
